@@ -274,6 +274,16 @@ def run(ctx, chk):
                        [[hex(w) for w in ws] for ws in seen], [hex(w) for w in doc_words]))
     else:
         chk.missing('C16.V1', 'SHM_MAGIC constant')
+    # ---- V8 the open entry points of the two client libraries add no outcome of their own: they succeed exactly when the shm
+    # crate's open does and pass its error on (C17.Y9 re-evaluated under C16)
+    if not getattr(chk, '_nested', False):
+        from . import C17
+        sub8 = type(chk)('C16', LEVEL, chk.tier)
+        sub8._nested = True
+        C17.open_close_rules(fb, sub8)
+        for o in sub8.obs:
+            if o['rule'] == 'C17.Y9' and o['nontrivial'] and o['key'].startswith('open:'):
+                chk.ob('C16.V8', '%s:%s' % (o['rule'], o['key']), o['ok'], o['where'], o['detail'])
     # ---- V6 what is unmapped is what was mapped: every owner of a mapping in the shm crate (a type whose Drop reaches
     # munmap) hands munmap the pointer mmap returned and the very length mmap was given, on every path that builds it.
     # (A larger length unmaps foreign memory when a client closes the segment -- a crash; a smaller one leaks.)
